@@ -21,6 +21,7 @@ EXPLANATION = (
     "multi-valued tag list against the spec. The two generic loops are matched structurally. "
     "Covers all 23 message types and every parameter subset because the conversion is keyword "
     "driven; setter range checks and pydicom's command-set codec are not decided."
+    ' Fourth session: (fresh-message) the message a primitive is converted into is constructed for that conversion, never one kept from an earlier send.'
 )
 
 
